@@ -114,6 +114,41 @@ def judge(world):
     relaxed = h.jumps > 0
     judge_consumer(world, h, relaxed)
     judge_producer(world, h, relaxed)
+    judge_overrun(world, h)
+
+
+def judge_overrun(world, h):
+    """A packet in which an element runs over the end of its parent is malformed; the library's decoder clips the value
+    silently (TlvModel.parse documents IndexError for it).  Reported when such a packet completed an Interest with its
+    (clipped) payload or reached a handler."""
+    for r in h.rx:
+        c = r['c']
+        if not c.get('overrun'):
+            continue
+        if c['kind'] == 'data':
+            twins = [x for x in h.rx if x is not r and x['c']['kind'] == 'data' and not x['c'].get('overrun')
+                     and list(x['c']['name']) == list(c['name']) and x['c'].get('content') == c.get('content')]
+            if twins:
+                continue
+            for iid, dl in h.done.items():
+                for d in dl:
+                    if d['out'] == 'data' and d['seq'] > r['seq'] and list(d.get('name', [])) == list(c['name']) \
+                            and d.get('content') == c.get('content'):
+                        world.violate('C06', 'overrun-accepted', h.fe, 'data',
+                                      f'Interest {iid} was completed with Data {_fmt_name(c["name"])} from a packet in which an '
+                                      f'element runs over the end of its parent (the value was clipped to what is there)')
+                        return
+        elif c['kind'] == 'interest':
+            twins = [x for x in h.rx if x is not r and x['c']['kind'] == 'interest' and not x['c'].get('overrun')
+                     and list(x['c']['name']) == list(c['name']) and x['c'].get('nonce') == c.get('nonce')]
+            if twins:
+                continue
+            for x in h.hcalls:
+                if x['seq'] > r['seq'] and list(x['name']) == list(c['name']) and x['nonce'] == c.get('nonce'):
+                    world.violate('C06', 'overrun-accepted', h.fe, 'interest',
+                                  f'Interest {_fmt_name(c["name"])} reached handler {x["hid"]} although an element of the '
+                                  f'packet runs over the end of its parent')
+                    return
 
 
 # ----------------------------------------------------------------------------------------------
